@@ -17,14 +17,14 @@ def hill_climb(ctx, impl, model):
     """(tag, sdl) of schemas reached by repairing invalid ones; guided by the specification's rule vector"""
     rng = ctx.rng
     bases = [("rich", G.base_rich()), ("implicit", G.base_implicit()), ("redef", G.base_redef())]
-    for i in range(6 if ctx.tier == "quick" else 60):
+    for i in range(6 if ctx.tier == "quick" else 24):
         bases.append(("hrand%d" % i, G.base_random(rng, 1000 + i)))
     pool = []
-    per_base = 50 if ctx.tier == "quick" else 120
+    per_base = 50 if ctx.tier == "quick" else 80
     for bname, b in bases:
         ms = [x for x in G.mutants(b, rng, per=2) if not x[0].startswith(("build/", "default_values/"))]
         for mname, m in rng.sample(ms, min(per_base, len(ms))):
-            if rng.random() < (0.2 if ctx.tier == "quick" else 0.4):
+            if rng.random() < (0.2 if ctx.tier == "quick" else 0.3):
                 # a second mutation on top of the first
                 ms2 = [x for x in G.mutants(m, rng, per=1) if not x[0].startswith(("build/", "default_values/"))]
                 if ms2:
